@@ -50,18 +50,22 @@ def symbolic_newargs(rep: report.Report) -> None:
         r = measured.Prefix.__new__(measured.Prefix, *args, **kwargs)
         return ("Prefix", p, r, args, list(with_tables.models["Prefix._known"].writes))
 
-    def unit_case() -> Any:
-        bs = [measured.Unit._by_name[n] for n in ("meter", "second", "pound-force")]
+    def unit_case(nf: int = 3, identity: bool = False) -> Any:
+        bs = [measured.Unit._by_name[n] for n in ("meter", "second", "pound-force")][:nf]
         fs = {b: SInt(z3.Int(f"e{i}")) for i, b in enumerate(bs)}
         dim = im.shadow_dimension([SInt(z3.simplify(t)) for t in im.dim_of_factors(fs, N)])
-        pre = im.shadow_prefix(10, SInt(z3.Int("p")))
+        # the real identity prefix object: code may test `prefix is IdentityPrefix`
+        pre = measured.IdentityPrefix if identity else im.shadow_prefix(10, SInt(z3.Int("p")))
         u = im.shadow_unit(pre, fs, dim)
         args, kwargs = u.__getnewargs_ex__()
         with_tables.models["Unit._known"].on_present = lambda k: u
         r = measured.Unit.__new__(measured.Unit, *args, **kwargs)
         return ("Unit", u, r, args, list(with_tables.models["Unit._known"].writes))
 
-    for fn in (dim_case, prefix_case, unit_case):
+    import functools
+
+    for fn in (dim_case, prefix_case, unit_case, functools.partial(unit_case, 1, True),
+               functools.partial(unit_case, 2, True), functools.partial(unit_case, 1, False)):
         with symnum.Shims(), im.Tables("symbolic") as with_tables:
             def run() -> Any:
                 with_tables.reset()
@@ -85,14 +89,19 @@ def symbolic_newargs(rep: report.Report) -> None:
             elif kind == "Prefix":
                 same = z3.And(z3.BoolVal(args[0] == obj.base), term(args[1]) == term(obj.exponent))
             else:
+                same_keys = set(map(id, args[1])) == set(map(id, obj.factors))
+                # (a base unit proper is pickled with empty factors and re-keyed under itself;
+                # a shadow unit here never is one: its factors are other, registered units)
                 same = z3.And(z3.BoolVal(args[0] is obj.prefix and args[2] is obj.dimension),
-                              z3.BoolVal(set(map(id, args[1])) == set(map(id, obj.factors))),
-                              *[term(args[1][f]) == term(obj.factors[f]) for f in obj.factors])
+                              z3.BoolVal(same_keys),
+                              *([term(args[1][f]) == term(obj.factors[f]) for f in obj.factors] if same_keys else []))
             st, _ = P.check(p.cond, z3.Not(same))
             rep.ob("unsat" if st == "unsat" else "sat", f"{kind}: the key rebuilt from __getnewargs_ex__ equals "
                    "the object's intern key", ("newargs", kind, i))
             if st != "unsat":
-                rep.violation(f"C15:newargs:{kind}", f"{kind}.__getnewargs_ex__ does not reproduce the intern key",
+                rep.violation(f"C15:newargs:{kind}", f"{kind}.__getnewargs_ex__ does not reproduce the intern key "
+                              f"(factors {len(getattr(obj, 'factors', ()))}, prefix "
+                              f"{'identity' if getattr(obj, 'prefix', None) is measured.IdentityPrefix else 'other'})",
                               transport_replay(kind))
     rep.merge_stats(queries=P.asked, solver_s=P.solver_s)
 
@@ -204,6 +213,7 @@ from measured import Unit, Prefix, Dimension
 from measured.si import Kilo, Milli, Meter, Second, Newton
 from measured.iec import Kibi, Byte
 objs = [Meter, Newton, Kilo * Meter, (Milli * Second) ** -2, Kilo * Newton / Meter ** 2, Kibi * Byte, Kilo, Kibi,
+        Meter ** 2, Second ** -2, Meter ** -1, Meter ** 3 / Second, Kilo * Meter ** 2,
         Kilo * Kilo, Meter.dimension, Newton.dimension, (Meter ** 7 / Second ** 5).dimension, Meter ** 7 / Second ** 5]
 bad = []
 for o in objs:
@@ -434,7 +444,8 @@ try:
 except Exception as e:
     print('REPRODUCED:', tname, 'of', repr(o), 'raised', type(e).__name__, e); sys.exit(1)
 print(repr(o), '->', repr(r))
-ok = (r is o) if kind != 'quantity' else (r == o and type(r.magnitude) is type(o.magnitude))
+ok = (r is o) if kind != 'quantity' else (r == o and type(r.magnitude) is type(o.magnitude)
+                                          and (r.unit is o.unit or tname.startswith('json')))
 if not ok:
     print('REPRODUCED: round trip does not preserve the value / identity'); sys.exit(1)
 sys.exit(0)
